@@ -1045,6 +1045,13 @@ class C04(EvalProp):
             c = Case('pk%d' % i, path.encode(), [doc, doc], [], [ag] if '%s' % ag in path else [], False, False, 'eval', meta={'nsteps': 2, 'family': 'packed-arrays'})
             c.packed = 1 + i % 9
             cs.append(c)
+        # function names nobody registered (the names a library might be tempted to supply itself): function-not-found, and the document —
+        # unsorted arrays, reached directly and through value groups — is left as it was
+        for i, nm in enumerate(['median', 'sort', 'sorted', 'min', 'max', 'sum', 'avg', 'count', 'length', 'size', 'keys', 'values', 'reverse', 'unique', 'first', 'last', 'distinct', 'flatten']):
+            udoc = ('o', [(b'a', ('a', [('n', 3.0), ('n', 1.0), ('n', 2.0)])), (b'b', ('a', [('n', 9.0), ('n', 8.0), ('s', b'x'), ('n', 7.0)])), (b'c', ('o', [(b'z', ('n', 2.0)), (b'y', ('n', 1.0))]))])
+            for j, tpl in enumerate(['$.a.%s()', '$.*.%s()', '$..a.%s()', '$.b.%s()', '$.c.%s()', '$[?(@.%s() > 0)]']):
+                if (i + j) % 2 == 0 or j == 0:
+                    cs.append(Case('un%d_%d' % (i, j), (tpl % nm).encode(), [udoc, udoc], meta={'nsteps': 2, 'family': 'unregistered-function-names'}))
         for i in range(n // 8):
             doc = g.doc(3, False, 0)
             path = g.r.choice([b'$[*]', b'$.*', b'$..*', b'$..[*]', b'$.*.*', b'$[*][*]', b'$..a[*]', b'$.list[*]', b'$[0:]', b'$..[0:2]'])
@@ -1133,7 +1140,7 @@ class C02(EvalProp):
 
     def cases(self, ctx, g, n):
         cs = string_cases(ctx, g, n)
-        cs += exhaustive_string_cases(None if not ctx.quick else 1800)
+        cs += exhaustive_string_cases(None if not ctx.quick else 2000)
         # Retrieve on the same strings: every third one is also evaluated on a small mixed document
         for c in cs[::3]:
             if not c.docs:
@@ -1293,7 +1300,7 @@ class C17(EvalProp):
         for c in cs:
             if g.r.random() < 0.3:
                 c.mode = 'tree'
-        cs += exhaustive_string_cases(1800 if ctx.quick else None)
+        cs += exhaustive_string_cases(2000 if ctx.quick else None)
         cs += bigint_filter_cases(g.r, 150 if ctx.quick else 1500)
         return cs
 
@@ -1368,7 +1375,7 @@ class C17(EvalProp):
         # accept and reject as that grammar does.  On the current tree it is the regenerated grammar (GrammarPinnedEq.v), so this
         # repeats the main comparison; when jsonpath.peg and the generated parser are changed together the regenerated model
         # follows them, and this comparison is what exhibits a string whose acceptance changed
-        pcs = exhaustive_string_cases(1800 if ctx.quick else None) + string_cases(ctx, g, ctx.n(2500, 30000) * budget_scale, prefix='pg')
+        pcs = exhaustive_string_cases(2000 if ctx.quick else None) + string_cases(ctx, g, ctx.n(2500, 30000) * budget_scale, prefix='pg')
         for c in pcs:
             c.id = 'pin_' + c.id
             c.pinned = True
@@ -2139,6 +2146,14 @@ class C07(Prop):
                 c2 = Case('al%d' % i, r.choice([b'$..*', b'$..a', b'$..[0]', b'$..[*]', b'$.*.*', b'$..[?(@)]', path]), [shared, shared], meta={'perm_idx': [0, 1], 'nkeys': 3})
                 c2.alias = True
                 cases.append(c2)
+        # arrays of several hundred elements below `..` followed by a step that takes arrays (index, slice, union, wildcard, filter): every
+        # element once, in index order, the containers in pre-order
+        for i, ln in enumerate([257, 300, 513, 700] if ctx.quick else [256, 257, 258, 300, 511, 513, 700, 1025]):
+            wide = ('a', [('n', float(k)) for k in range(ln)])
+            d = ('o', [(b'a', wide), (b'b', ('a', [('n', -1.0), ('a', [('n', float(k)) for k in range(ln - 1)])])), (b'c', ('n', 5.0))])
+            for j, path in enumerate([b'$..[0,-1]', b'$..[*]', b'$..[-3:]', b'$..[255:259]', b'$..[?(@ > %d)]' % (ln - 4), b'$..[0]', b'$..[::100]', b'$..*']):
+                if (i + j) % 2 == 0:
+                    cases.append(Case('wd%d_%d' % (i, j), path, [d] * 8, meta={'perm_idx': list(range(8)), 'nkeys': 3, 'family': 'wide-arrays-under-descent'}))
         # function names are looked up exactly: two registered names that differ only in letter case and a path that spells a third
         # form — not found, every time (whatever order a map hands its keys out in)
         for i, (fl, ag, path) in enumerate([(['Twice', 'TWICE'], [], b'$.*.twice()'), ([], ['Cnt', 'CNT'], b'$.*.cnt()'), (['Id', 'iD'], ['First', 'FIRST'], b'$[?(@.id())]'),
@@ -4613,6 +4628,14 @@ class C19(Prop):
                    (dict(op='retrieve', path_hex=hx(p2), doc=core.doc_go(wdoc), mutate=False, burn=burn, **nocfg_), wdoc),
                    (dict(op='retrieve', path_hex=hx(p1), doc=core.doc_go(wdoc), mutate=False, **nocfg_), wdoc)]
             hists.append((ops, True))
+        # a parsed function HELD while a thousand and more unrelated filters with fresh literals are parsed, then called: whatever its tree
+        # refers to (literal operands, compiled expressions, names) is its own
+        hdoc = ('a', [('o', [(b'a', ('s', b'held')), (b'n', ('n', 1.0))]), ('o', [(b'a', ('n', 5.0)), (b'n', ('n', 2.0))]), ('o', [(b'a', ('s', b'h7')), (b'n', ('n', 3.0))])])
+        for i, hp_ in enumerate([b"$[?(@.a == 'held')].n", b'$[?(@.a == 5)].n', b'$[?(@.a =~ /^h7$/)].n', b"$[?(@.a != 'held' && @.a != 5)].n", b"$[?('held' == @.a || 5 == @.a)].n"]):
+            for bh in ([1100, 2100] if ctx.quick else [1023, 1024, 1025, 2100, 4200]):
+                ops = [(dict(op='retrieve', path_hex=hx(hp_), doc=core.doc_go(hdoc), mutate=False, burn_held=bh, **nocfg_), hdoc),
+                       (dict(op='retrieve', path_hex=hx(hp_), doc=core.doc_go(hdoc), mutate=False, **nocfg_), hdoc)]
+                hists.append((ops, True))
         # cold starts: the history runs in a brand-new process, so its first call is the first the library ever sees
         # (lazily initialised package state, the generated parser's own buffers): the empty path, paths that begin
         # with an escape, a bare name, ... then ordinary calls
@@ -4640,7 +4663,7 @@ class C19(Prop):
                 key = json.dumps([op['path_hex'], op['filters'], op['aggs'], op['acc'], op['nocfg'], core.doc_render(d), bool(op.get('allfail'))])
                 if key not in uniq:
                     cid = 'u%d' % len(uniq)
-                    op1 = dict(op, mutate=False, cfg_ref=0, burn=0, copy_of=0)
+                    op1 = dict(op, mutate=False, cfg_ref=0, burn=0, copy_of=0, burn_held=0)
                     uniq[key] = (RawCase(cid, hist_json(cid, [op1])),
                                  Case(cid, unhx(op['path_hex']), [d], op['filters'], op['aggs'], op['acc'], op['nocfg']))
         gos = core.run_go(raws)
@@ -4697,7 +4720,7 @@ class C19(Prop):
         g_ = core.run_go([RawCase('r', hist_json('r', ops))])[0]
         print('history :', g_)
         for k, op in enumerate(ops):
-            a = core.run_go([RawCase('a', hist_json('a', [dict(op, mutate=False, cfg_ref=0, burn=0, copy_of=0)]))])[0]
+            a = core.run_go([RawCase('a', hist_json('a', [dict(op, mutate=False, cfg_ref=0, burn=0, copy_of=0, burn_held=0)]))])[0]
             if a.get('O0') != g_.get('O%d' % k):
                 print('call %d alone: %s' % (k, a.get('O0')))
                 res.violation('concrete', 'replay', 'call %d differs from the same call alone' % k, v['case'])
